@@ -840,7 +840,11 @@ impl Ty {
                 8 => Some(i8::MAX as u64),
                 16 => Some(i16::MAX as u64),
                 32 => Some(i32::MAX as u64),
-                64 | 128 => Some(i64::MAX as u64),
+                64 => Some(i64::MAX as u64),
+                // an int literal is never bigger than `u64::MAX`, which an `i128` can hold
+                128 => Some(u64::MAX),
+                // `isize`: whatever the target is, it's never wider than 64 bits
+                &u8::MAX => Some(i64::MAX as u64),
                 _ => None,
             },
             Ty::UInt(bit_width) => match bit_width {
